@@ -43,10 +43,27 @@ type c18Base struct {
 }
 
 type c18Case struct {
-	Base  int       `json:"base"`
-	Patch bytePatch `json:"patch"`
-	Fix   bool      `json:"fix_checksum,omitempty"`
-	Label string    `json:"label"`
+	// compact: the thorough tier enumerates more than a million cases, and every worker process holds the list
+	Base uint8
+	Fix  bool
+	Lbl  uint8 // 0 byte, 1 byte+csum, 2 cluster-limit, 3 le16, 4 le32
+	Len  uint8
+	Off  int64
+	Data [4]byte
+}
+
+type c18PatchView struct {
+	Off  int64
+	Data []byte
+}
+
+// Patch gives the (offset, bytes) view of the case.
+func (c *c18Case) patch() c18PatchView { return c18PatchView{c.Off, c.Data[:c.Len]} }
+
+func mkC18Case(base int, off int64, data []byte, fix bool, lbl uint8) c18Case {
+	c := c18Case{Base: uint8(base), Fix: fix, Lbl: lbl, Len: uint8(len(data)), Off: off}
+	copy(c.Data[:], data)
+	return c
 }
 
 type c18Target struct {
@@ -359,7 +376,7 @@ func newC18Target(quick bool) *c18Target {
 				}
 				orig := b.Dev.Peek(o, 1)[0]
 				// large all-zero metadata areas (unused FAT entries, empty directory slots): probe sparsely
-				if orig == 0 && (quick && o%32 != 0 || !quick && o%4 != 0) {
+				if orig == 0 && (quick && o%32 != 0 || !quick && o%8 != 0) {
 					continue
 				}
 				vals := []byte{0x00, 0x01, 0x7F, 0x80, 0xFF, orig ^ 0x01, orig ^ 0x80}
@@ -370,9 +387,9 @@ func newC18Target(quick bool) *c18Target {
 					if v == orig {
 						continue
 					}
-					t.cases = append(t.cases, c18Case{Base: bi, Patch: bytePatch{o, []byte{v}}, Label: "byte"})
+					t.cases = append(t.cases, mkC18Case(bi, o, []byte{v}, false, 0))
 					if b.Fix != nil && o >= 1024 && o < 2044 {
-						t.cases = append(t.cases, c18Case{Base: bi, Patch: bytePatch{o, []byte{v}}, Fix: true, Label: "byte+csum"})
+						t.cases = append(t.cases, mkC18Case(bi, o, []byte{v}, true, 1))
 					}
 				}
 				if o%2 == 0 {
@@ -387,14 +404,17 @@ func newC18Target(quick bool) *c18Target {
 							pat := make([]byte, 4)
 							binary.LittleEndian.PutUint32(pat, v)
 							if w == 2 || b.Kind == "fat32" {
-								t.cases = append(t.cases, c18Case{Base: bi, Patch: bytePatch{o, pat[:w]}, Label: "cluster-limit"})
+								t.cases = append(t.cases, mkC18Case(bi, o, pat[:w], false, 2))
 							}
 						}
 						for pi, pat := range lePatterns(w, b.Size) {
 							if quick && pi != 1 && pi != 2 {
 								continue
 							}
-							t.cases = append(t.cases, c18Case{Base: bi, Patch: bytePatch{o, pat}, Label: fmt.Sprintf("le%d", w*8)})
+							if pi == 4 || pi == 6 || pi == 7 || pi == 9 {
+								continue // of the block-size neighbourhood (511..513, 4095..4097) only 512 and 4096 are used here
+							}
+							t.cases = append(t.cases, mkC18Case(bi, o, pat, false, uint8(2+w/2)))
 						}
 					}
 				}
@@ -414,16 +434,16 @@ func (t *c18Target) ImageOf(i int) string {
 }
 func (t *c18Target) Describe(i int, quick bool) any {
 	c := t.cases[i]
-	return map[string]any{"image": t.bases[c.Base].Name, "offset": c.Patch.Off, "bytes": fmt.Sprintf("%x", c.Patch.Data), "was": fmt.Sprintf("%x", t.bases[c.Base].Dev.Peek(c.Patch.Off, len(c.Patch.Data))), "checksum_fixed": c.Fix}
+	return map[string]any{"image": t.bases[c.Base].Name, "offset": c.patch().Off, "bytes": fmt.Sprintf("%x", c.patch().Data), "was": fmt.Sprintf("%x", t.bases[c.Base].Dev.Peek(c.patch().Off, len(c.patch().Data))), "checksum_fixed": c.Fix}
 }
 
 func (t *c18Target) Run(i int, quick bool) corruptResult {
 	c := t.cases[i]
 	b := &t.bases[c.Base]
 	d := b.Dev.Clone()
-	d.Poke(c.Patch.Data, c.Patch.Off)
+	d.Poke(c.patch().Data, c.patch().Off)
 	if c.Fix && b.Fix != nil {
-		b.Fix(d, c.Patch.Off)
+		b.Fix(d, c.patch().Off)
 	}
 	d.ReadBudget = 50*b.CleanReads + 20000
 	a0 := allocBytes()
@@ -437,9 +457,9 @@ func (t *c18Target) Run(i int, quick bool) corruptResult {
 	}
 	switch {
 	case pm != "":
-		return corruptResult{Sig: img + "|" + pm, Msg: fmt.Sprintf("%s with bytes %x at offset %d: %s", b.Name, c.Patch.Data, c.Patch.Off, pm), Outcome: "panic"}
+		return corruptResult{Sig: img + "|" + pm, Msg: fmt.Sprintf("%s with bytes %x at offset %d: %s", b.Name, c.patch().Data, c.patch().Off, pm), Outcome: "panic"}
 	case d.Exceeded:
-		return corruptResult{Sig: img + "|endless-reading", Msg: fmt.Sprintf("%s with bytes %x at offset %d: more than %d device reads while walking a %d-byte image", b.Name, c.Patch.Data, c.Patch.Off, d.ReadBudget, b.Size), Outcome: "loop"}
+		return corruptResult{Sig: img + "|endless-reading", Msg: fmt.Sprintf("%s with bytes %x at offset %d: more than %d device reads while walking a %d-byte image", b.Name, c.patch().Data, c.patch().Off, d.ReadBudget, b.Size), Outcome: "loop"}
 	}
 	// out of proportion = far beyond both the image size and what walking the undamaged image needs
 	limit := uint64(64*b.Size + 32<<20)
@@ -447,7 +467,7 @@ func (t *c18Target) Run(i int, quick bool) corruptResult {
 		limit = l2
 	}
 	if a1-a0 > limit {
-		return corruptResult{Sig: img + "|allocation", Msg: fmt.Sprintf("%s with bytes %x at offset %d: walking allocated %d bytes for a %d-byte image (bound %d)", b.Name, c.Patch.Data, c.Patch.Off, a1-a0, b.Size, limit), Outcome: "alloc"}
+		return corruptResult{Sig: img + "|allocation", Msg: fmt.Sprintf("%s with bytes %x at offset %d: walking allocated %d bytes for a %d-byte image (bound %d)", b.Name, c.patch().Data, c.patch().Off, a1-a0, b.Size, limit), Outcome: "alloc"}
 	}
 	res := corruptResult{Outcome: "walked"}
 	if err != nil {
@@ -481,7 +501,7 @@ func C18(r *ev.Run) {
 	r.Set("cases_enumerated", int64(n))
 	r.Set("distinct_outcomes", st.outcomes)
 	r.Set("worker_deaths", int64(st.deaths))
-	r.Set("rule", "base images built by the library: FAT12 64 KiB, FAT32 64 KiB, (thorough: FAT16 4.3 MiB), ext4 1 MiB with and without metadata checksums (directories, a six-extent file pair, fast and slow symlinks), ISO9660 plain / Rock Ridge / (thorough: RR+Joliet), squashfs gzip and uncompressed with a 300-entry directory; sites = every byte offset that opening, listing every directory and reading every file consumes (measured with a read-tracking device; ranges that only file reads touch contribute their first 96 bytes; zero bytes of large unused tables are probed every 4th/16th byte); per site single-byte values {00,01,7F,80,FF,b^01,b^80} and little-endian 16/32-bit patterns {0, all-ones, max-signed, sign-bit, image size(+1) in bytes and sectors}; ext4 superblock sites additionally with the superblock crc32c recomputed. Each case runs in a worker process under RLIMIT_AS=2GiB with panic, process-death, read-budget (300000 reads) and allocation (64 x image + 32 MiB) oracles; non-trivial = the image was opened and at least the root listed")
+	r.Set("rule", "base images built by the library: FAT12 64 KiB, FAT32 64 KiB, (thorough: FAT16 4.3 MiB), ext4 1 MiB with and without metadata checksums (directories, a six-extent file pair, fast and slow symlinks), ISO9660 plain / Rock Ridge / (thorough: RR+Joliet), squashfs gzip and uncompressed with a 300-entry directory; sites = every byte offset that opening, listing every directory and reading every file consumes (measured with a read-tracking device; ranges that only file reads touch contribute their first 96 bytes; zero bytes of large unused tables are probed every 8th/32nd byte); per site single-byte values {00,01,7F,80,FF,b^01,b^80} and little-endian 16/32-bit patterns {0, all-ones, max-signed, sign-bit, image size(+1) in bytes and sectors}; ext4 superblock sites additionally with the superblock crc32c recomputed. Each case runs in a worker process under RLIMIT_AS=2GiB with panic, process-death, read-budget (300000 reads) and allocation (64 x image + 32 MiB) oracles; non-trivial = the image was opened and at least the root listed")
 	r.Set("exhaustive", st.done >= int64(n))
 	r.Assume("a worker death or 120 s without progress is attributed to the case in flight and must reproduce twice on that single case")
 }
